@@ -196,6 +196,7 @@ type vfWorld struct {
 	cacheSynced   map[string]bool
 	agentSim      *vfAgent
 	okta          *simOkta
+	returnedCerts map[string]int
 	lockoutPause  time.Duration
 	idp           *simIdP
 	pendingMods   []string // request modifiers of the step being prepared (precookie:, fwd:, peer:)
